@@ -445,7 +445,7 @@ theorem feed_D {st : St} {f : Frame} {rest : List Frame} {q : Path}
   · simp only [St.touch, hs, recvDirNode]
   · exact verifyOk_mono hmono hv
   · exact resolve_mono hmono hrj
-  · simp only [St.touch, FS.isDir, set_self, recvDirNode, Node.isDir]
+  · simp only [St.touch, FS.isDir, set_self, Node.isDir]
 
 theorem exitFlag_eq : exitFlag = cE :: [] ++ [cNl] := by decide
 
